@@ -47,4 +47,9 @@ PROPS = {
     "C17": dict(
         suites=["range"], tags={"range_slice", "range_alloc"},
         rule="K8: all (L, start, end) with L in {0,1,2,5,9[,17,40]}, bounds 0..L+2 plus 2^32, 2^63, 2^64-1, and L around 8191/8192/8193"),
+    "C10": dict(
+        suites=["damage"], tags={"damage_accepted", "damage_panic"},
+        rule="every truncation offset and every single-bit change (masks 0x01, 0x80) of checksum and payload bytes of every "
+             "uncheckpointed record of logs produced by random clean histories (sampled positions for records above 120 bytes); "
+             "real Cas::open on a copy with the damaged segment vs the model and vs the longest-undamaged-prefix state"),
 }
